@@ -1268,3 +1268,117 @@ def reap(S):
     oblige_qf(S, "O5.I.idle_at_most_max_idle", v1.total <= M.max_idle)
     oblige_qf(S, "O5.I.active_unchanged", M.field("_active") is M.active0, kind="post")
     S.oblige("O5.I.max_idle_unchanged", M.field("_max_idle") is M.max_idle, kind="post")
+
+
+# ------------------------------------------------------------------------------------------
+# O10  "not after ... a call interrupted by a client-side exception": the message-boundary side of reuse.
+# _PooledTransport.close() only knows about streams; for a unary call the boundary is kept by the client's reader:
+# whatever makes _read_unary_response fail, the response stream has been consumed (or the transport itself failed)
+# before the exception reaches the borrower, so the worker that goes back to the pool has nothing left to say.
+# ------------------------------------------------------------------------------------------
+
+import vgi_rpc.rpc._wire as _wire  # noqa: E402
+from vgi_rpc.rpc._common import RpcError as _RpcError  # noqa: E402
+
+READ_OUTCOMES = ["batch", "rpc_error", "client_callback_raised", "resolve_failed", "transport_failed"]
+
+
+class ClientSideError(Exception):
+    """Stands for whatever the client's own code (on_log, result resolution) may raise."""
+
+
+def replay_unary_boundary(inputs, ob):
+    """Real pipe: a unary method that logs before answering, an on_log callback that raises, then a second call."""
+    import threading
+    from typing import Protocol
+
+    from vgi_rpc.log import Level
+    from vgi_rpc.rpc import CallContext, RpcConnection, RpcServer, make_pipe_pair
+
+    class P(Protocol):
+        def tagged(self, tag: str) -> str: ...
+
+    class Impl:
+        def tagged(self, tag: str, ctx: CallContext) -> str:
+            ctx.client_log(Level.INFO, f"working on {tag}")
+            return f"done-{tag}"
+
+    ct, st = make_pipe_pair()
+    th = threading.Thread(target=lambda: RpcServer(P, Impl()).serve(st), daemon=True)
+    th.start()
+    seen, res = [], {}
+
+    def on_log(msg):
+        seen.append(msg.message)
+        if len(seen) == 1:
+            raise ClientSideError("client-side failure in on_log")
+
+    def client():
+        with RpcConnection(P, ct, on_log=on_log) as c:
+            try:
+                c.tagged(tag="ALICE")
+                res["first"] = "returned"
+            except ClientSideError:
+                res["first"] = "ClientSideError"
+            except BaseException as e:  # noqa: BLE001
+                res["first"] = type(e).__name__
+            try:
+                res["second"] = c.tagged(tag="BOB")
+            except BaseException as e:  # noqa: BLE001
+                res["second"] = f"raised {type(e).__name__}: {e}"
+
+    t = threading.Thread(target=client, daemon=True)
+    t.start()
+    t.join(8)
+    bad = t.is_alive() or res.get("second") != "done-BOB"
+    return ReplayResult(bad, f"first call (on_log raises) -> {res.get('first')}; next call on the same connection -> {'HUNG' if t.is_alive() else res.get('second')}")
+
+
+@unit(
+    "C32.O10 _read_unary_response: whatever interrupts a unary call on the client side, the response has been consumed before the borrower sees the exception",
+    targets=["vgi_rpc/rpc/_wire.py::_read_unary_response"],
+    replay=replay_unary_boundary,
+    min_obligations=8,
+)
+def unary_boundary(S):
+    mode = READ_OUTCOMES[S.choose(len(READ_OUTCOMES))]
+    S.inputs["read_outcome"] = mode
+    reader = SObj(None, kind="Reader", ipc_validation="full")
+    ab = SObj(None, kind="AB", batch=SObj(None, kind="Batch"), custom_metadata=None)
+    raised = {}
+
+    def read_check(S, r, on_log=None, external_config=None, shm=None):
+        S.event("read")
+        if mode == "batch":
+            return ab
+        cls = {"rpc_error": _RpcError, "client_callback_raised": ClientSideError, "resolve_failed": RuntimeError, "transport_failed": BrokenPipeError}[mode]
+        raised["exc"] = SExc(cls, ("ServerError", "boom", "") if cls is _RpcError else ("failed",))
+        raise PyRaise(raised["exc"])
+
+    def drain(S, r):
+        S.event("drained")
+        if mode == "transport_failed" or S.choose(2) == 1:
+            S.event("drain_failed")
+            raise PyRaise(SExc(BrokenPipeError if mode == "transport_failed" else RuntimeError, ("drain failed",)))
+
+    S.handlers["_read_batch_with_log_check"] = read_check
+    S.handlers["_drain_stream"] = drain
+    S.handlers["AB.release"] = lambda S, a: S.event("released")
+    S.handlers["Batch.column"] = lambda S, b, k: SObj(None, kind="Column")
+    S.handlers["Column.__getitem__"] = lambda S, c, i: SObj(None, kind="Scalar")
+    S.handlers["Scalar.as_py"] = lambda S, sc: (S.opaque("result_value", "PyVal?") if S.choose(2) == 0 else (_ for _ in ()).throw(PyRaise(SExc(OverflowError, ("value out of range",)))))
+    S.handlers["_validate_result"] = lambda S, *a: None if S.choose(2) == 0 else (_ for _ in ()).throw(PyRaise(SExc(TypeError, ("result does not match",))))
+    S.handlers["_deserialize_value"] = lambda S, v, *a: v
+    info = SObj(None, kind="Info", name="m", has_return=(S.choose(2) == 0), result_type=SObj(None, kind="Hint"))
+    out = S.outcome(_wire._read_unary_response, reader, info, None, None, shm=None)
+    names = [e[0] for e in S.trace]
+    # the response stream was read to its end (a failing drain means the transport itself is gone: nothing is left to misread)
+    if mode != "transport_failed":  # a dead transport has nothing left to misread; draining it is optional
+        S.oblige("O10.response_consumed_on_every_outcome", "drained" in names, kind="trace", witness=mode + (":raised" if out.raised else ":returned"))
+    if mode != "batch":
+        S.oblige("O10.an_interrupted_call_raises", out.raised, kind="raises", witness=mode)
+        if "drain_failed" not in names:
+            S.oblige("O10.the_interrupting_exception_reaches_the_borrower_unchanged", out.raised and out.exc is raised.get("exc"), kind="raises", witness=mode)
+    if mode == "batch":
+        S.oblige("O10.response_region_released", "released" in names, kind="trace")
+    S.canary("O10.canary.never_raises", SBool(z3.BoolVal(not out.raised)))
